@@ -870,7 +870,7 @@ def c09(r):
     r.validate("Trace_Cache", ch_t)
     racelog = os.path.join(r.dir, "racelog")
     ch_r = r.drive("c09stress", race=True, shards=2, maxlines=0, args={"ms": 60000 if thorough else 3000, "rounds": 600 if thorough else 60},
-                   env={"VERIF_RACE_LOG": racelog, "GORACE": "log_path=%s halt_on_error=0" % racelog})
+                   env={"VERIF_RACE_LOG": racelog, "GORACE": "log_path=%s halt_on_error=0 exitcode=0" % racelog})
     r.validate("Trace_Cache", ch_r)
     r.sample_from([ch_s[0], ch_h[0]])
     r.cov["samples"] = [s[:500] for s in r.cov["samples"]]
